@@ -215,6 +215,18 @@ func (x *c12) resolve() bool {
 							x.inner[typeStr(t2)] = t2
 						}
 					}
+					// … or a type switch on the message: `switch m := e.message.(type) { case outError: … }`
+					if ts, ok := n.(*ast.TypeSwitchStmt); ok {
+						if sub := c12SwitchSubject(ts); sub != nil && c11FieldOf(x.info, sub) == x.fMessage {
+							for _, st2 := range ts.Body.List {
+								for _, te2 := range st2.(*ast.CaseClause).List {
+									if t2 := x.info.TypeOf(te2); t2 != nil && x.isRTType(t2) {
+										x.inner[typeStr(t2)] = t2
+									}
+								}
+							}
+						}
+					}
 					return true
 				})
 			}
@@ -739,7 +751,30 @@ func (x *c12) r3() {
 				return true
 			})
 			if !done {
-				o.Bad("the *PanicError clause does not replace an output-error message by the writer's error")
+				// another spelling (a type switch on the message, `if !ok { return err }`, ok tested on its own
+				// line): the question is decided on the control-flow graph by the path rule (c13r7.go)
+				sub := NewRun("C13", r.Tier, r.P)
+				safeRun(sub, c13UnwrapUnconditional)
+				good, why := len(sub.Obls) > 0, ""
+				for _, so := range sub.Obls {
+					if so.Verdict != Discharged {
+						good, why = false, so.Fact
+					}
+				}
+				if good {
+					// the returns of the clause have been judged by the path rule
+					ast.Inspect(cc, func(nd ast.Node) bool {
+						if rs, ok := nd.(*ast.ReturnStmt); ok {
+							vouched[rs] = true
+						}
+						return true
+					})
+					o.OK("on every path of %s on which the result is a panic record its message is tested against the output-error type, and where the test succeeds the writer's error is returned (path rule, %d obligations)", key, len(sub.Obls))
+				} else if why != "" {
+					o.Bad("the *PanicError clause does not replace an output-error message by the writer's error: %s", why)
+				} else {
+					o.Bad("the *PanicError clause does not replace an output-error message by the writer's error")
+				}
 			}
 		default:
 			car := x.carrier(n)
@@ -1029,37 +1064,48 @@ func (x *c12) r4() {
 		b, ok := w.Type().Underlying().(*types.Basic)
 		return ok && b.Kind() == types.Bool
 	})
-	lc := r.P.CFGOf(a.loop)
 	nread := 0
-	ast.Inspect(a.loop.Decl.Body, func(nd ast.Node) bool {
-		se, ok := nd.(*ast.SelectorExpr)
-		if !ok || c11FieldOf(x.info, se) != x.fMessage || c11FieldOf(x.info, se.X) != a.fPanic {
-			return true
-		}
-		nread++
-		cl := c11ClauseName(x.info, a.dispatch, se)
-		o := r.Ob(R, a.loop.Name()+"#"+cl+":message-read-marks-recovered", se.Pos())
-		if fRecovered == nil {
-			o.Unknown("the panic record has no single bool field")
-			return true
-		}
-		blk, _ := lc.Locate(se)
-		marked := false
-		if blk != nil {
-			for _, m := range blk.Nodes {
-				if as, ok := m.(*ast.AssignStmt); ok && len(as.Lhs) == 1 && len(as.Rhs) == 1 && c11FieldOf(x.info, as.Lhs[0]) == fRecovered {
-					ls := ast.Unparen(as.Lhs[0]).(*ast.SelectorExpr)
-					if tv, ok := x.info.Types[as.Rhs[0]]; ok && tv.Value != nil && tv.Value.String() == "true" && c11FieldOf(x.info, ls.X) == a.fPanic {
-						marked = true
+	// the read is looked for in every function of the package: the recover instruction may be implemented
+	// in the interpreter loop or in a method it calls
+	for _, fi := range x.rtFuncs() {
+		fi := fi
+		var lc *CFGInfo
+		ast.Inspect(fi.Decl.Body, func(nd ast.Node) bool {
+			se, ok := nd.(*ast.SelectorExpr)
+			if !ok || c11FieldOf(x.info, se) != x.fMessage || c11FieldOf(x.info, se.X) != a.fPanic {
+				return true
+			}
+			nread++
+			if lc == nil {
+				lc = r.P.CFGOf(fi)
+			}
+			cl := ""
+			if fi.Obj == a.loop.Obj {
+				cl = c11ClauseName(x.info, a.dispatch, se)
+			}
+			o := r.Ob(R, fi.Name()+"#"+cl+":message-read-marks-recovered", se.Pos())
+			if fRecovered == nil {
+				o.Unknown("the panic record has no single bool field")
+				return true
+			}
+			blk, _ := lc.Locate(se)
+			marked := false
+			if blk != nil {
+				for _, m := range blk.Nodes {
+					if as, ok := m.(*ast.AssignStmt); ok && len(as.Lhs) == 1 && len(as.Rhs) == 1 && c11FieldOf(x.info, as.Lhs[0]) == fRecovered {
+						ls := ast.Unparen(as.Lhs[0]).(*ast.SelectorExpr)
+						if tv, ok := x.info.Types[as.Rhs[0]]; ok && tv.Value != nil && tv.Value.String() == "true" && c11FieldOf(x.info, ls.X) == a.fPanic {
+							marked = true
+						}
 					}
 				}
 			}
-		}
-		o.Set(marked, "the block that reads vm."+a.fPanic.Name()+"."+x.fMessage.Name()+" also sets vm."+a.fPanic.Name()+"."+fRecovered.Name()+" = true", "the message of the current panic is handed to the program without setting its "+fRecovered.Name()+" flag in the same block")
-		return true
-	})
+			o.Set(marked, "the block that reads vm."+a.fPanic.Name()+"."+x.fMessage.Name()+" also sets vm."+a.fPanic.Name()+"."+fRecovered.Name()+" = true", "the message of the current panic is handed to the program without setting its "+fRecovered.Name()+" flag in the same block")
+			return true
+		})
+	}
 	if nread == 0 {
-		r.Ob(R, a.loop.Name()+"#message-read-marks-recovered", a.loop.Decl.Pos()).Unknown("the interpreter loop never reads vm.%s.%s: recover not found", a.fPanic.Name(), x.fMessage.Name())
+		r.Ob(R, a.loop.Name()+"#message-read-marks-recovered", a.loop.Decl.Pos()).Unknown("no function of package runtime reads vm.%s.%s: recover not found", a.fPanic.Name(), x.fMessage.Name())
 	}
 
 	// (c) constructor mapping (E10)
